@@ -1,8 +1,8 @@
 (* C14 -- statements only; see DESIGN.md section 6 C14.  Theorems are added as the proofs land;
    the witnesses below are evaluated in the kernel on the whole-parser model. *)
 From Coq Require Import String.
-From MdIt Require Import Prims Tables Ruler Tree Render Core Dump Dispatch TreeProofs FragProofs PairsProofs RenderTotalProofs.
-From MdIt Require KindProofs NoRootProofs.
+From MdIt Require Import Prims Tables Ruler Tree Render Block Core Dump Dispatch TreeProofs FragProofs PairsProofs RenderTotalProofs ConfigProofs.
+From MdIt Require KindProofs NoRootProofs PlaceProofs.
 Local Open Scope string_scope.
 Local Open Scope list_scope.
 Local Open Scope N_scope.
@@ -33,7 +33,74 @@ Proof. vm_compute. reflexivity. Qed.
    parsing after the last block pass and fragments-join after the last inline pass -- C01_shipped_chains evaluates
    that condition for the shipped sets): final node kinds only (no inline-root placeholder, no delimiter placeholder,
    no empty node, heading levels 1..6 / 1..2), no empty Text and no two adjacent Text siblings anywhere, Root on top.
-   NOT PROVED: the placement rules (items under lists, inline under leaf blocks, childless leaves, Root nowhere else). *)
+   PLACEMENT (C14_placement, C14_well_formed): for every parser whose block chain contains the paragraph rule -- any
+   other rules, any core chain -- every node stands where its kind may stand (relation `may`, spelled out in
+   C14_may_spec): blocks only under Root / Blockquote / Item, items only under lists and lists hold only items, inline
+   nodes only under Paragraph / headings / Item (tight lists) / inline containers, code spans and autolinks hold only
+   Text, every other kind (Text, breaks, Hr, code blocks, HTML, Root as a child, ...) has no children / never occurs
+   as a child.  Without the paragraph rule the engine's fallback puts inline content directly under a container
+   (kernel-checked example C14_needs_paragraph_rule), which is why the property is quantified as it is. *)
+
+Theorem C14_placement : forall fuel m src d bc,
+  md_pairs_emph m = true -> snd (r_iter (md_block m)) = inr bc -> In R_PARA bc ->
+  snd (parse fuel m src) = inr d -> PlaceProofs.placed (d_root d) = true /\ n_kind (d_root d) = KRoot.
+Proof. exact parse_placed. Qed.
+
+(* the whole statement, placeholders excluded from the relation *)
+Theorem C14_well_formed : forall fuel m src d bc cc,
+  md_pairs_emph m = true -> snd (r_iter (md_block m)) = inr bc -> In R_PARA bc ->
+  snd (r_iter (md_core m)) = inr cc -> chain_renders cc = true ->
+  snd (parse fuel m src) = inr d ->
+  n_kind (d_root d) = KRoot /\ placed_final (d_root d) = true /\ frag_ok (d_root d) = true /\ all_k KindProofs.kind_ok (d_root d) = true.
+Proof. exact parse_well_formed. Qed.
+
+(* for EVERY parser assembled from the shipped plugins with the paragraph plugin (letter p or the composite C), any
+   other letters in any order: the first two hypotheses are discharged *)
+Theorem C14_shipped_placement : forall cfg nest fuel src d,
+  existsb (fun c => (c =? 112) || (c =? 67)) cfg = true ->
+  snd (parse fuel (build_md cfg nest) src) = inr d ->
+  PlaceProofs.placed (d_root d) = true /\ n_kind (d_root d) = KRoot.
+Proof. exact shipped_placed. Qed.
+
+Example C14_may_spec : forall p c, PlaceProofs.may p c =
+  match p with
+  | KRoot | KBlockquote => PlaceProofs.is_blk c
+  | KItem => PlaceProofs.is_blk c || PlaceProofs.is_inl_ph c
+  | KBullet _ | KOrdered _ _ => match c with KItem => true | _ => false end
+  | KParagraph | KATX _ | KSetext _ _ => PlaceProofs.is_inl_ph c
+  | KEm _ | KStrong _ | KStrike _ | KLink _ _ | KImage _ _ | KCustomPair _ => PlaceProofs.is_inl_ph c
+  | KCodeInline _ _ | KAutolink _ => match c with KText _ => true | _ => false end
+  | _ => false
+  end.
+Proof. reflexivity. Qed.
+Example C14_kind_classes :
+  (forall k, PlaceProofs.is_blk k = match k with KParagraph | KATX _ | KSetext _ _ | KHr _ _ | KCodeBlock _ | KFence _ _ _ _ _ | KBlockquote
+                                     | KBullet _ | KOrdered _ _ | KHtmlBlock _ | KCustomBlock | KCustomCore _ => true | _ => false end) /\
+  (forall k, PlaceProofs.is_inl k = match k with KText _ | KTextSpecial _ _ _ | KSoftbreak | KHardbreak | KCodeInline _ _ | KEm _ | KStrong _
+                                     | KStrike _ | KLink _ _ | KImage _ _ | KAutolink _ | KHtmlInline _ | KCustomInline _ | KCustomPair _
+                                     | KEmphMarker _ _ _ _ _ => true | _ => false end) /\
+  (forall p c, may_final p c = PlaceProofs.may p c && NoRootProofs.kind_ok c && not_marker c).
+Proof. repeat split; intros; try destruct k; reflexivity. Qed.
+
+(* why the paragraph rule is required: without it the engine's fallback leaves inline content directly under Root *)
+Example C14_needs_paragraph_rule :
+  let m := build_md (bs "nebmliatcfqhurHL") 100 in
+  match snd (parse (default_fuel m) m (bs "a")) with inr d => PlaceProofs.placed (d_root d) | inl _ => true end = false.
+Proof. vm_compute. reflexivity. Qed.
+
+(* non-vacuity: tight and loose lists, quotes, nested inline containers, code span, autolink *)
+Example C14_placement_nonvacuous :
+  let m := build_md (bs "CsW") 100 in
+  match snd (parse (default_fuel m) m (bs "- a *b [c `d`](e)*
+- > f <http://g.h>
+
+  1. i
+  2. ~~j~~
+
+# k")) with inr d => placed_final (d_root d) && (20 <? N.of_nat (size (d_root d))) | inl _ => false end = true.
+Proof. vm_compute. reflexivity. Qed.
+
+
 
 Theorem C14_final_tree : forall fuel m src d cc,
   md_pairs_emph m = true -> snd (r_iter (md_core m)) = inr cc -> chain_renders cc = true ->
@@ -94,6 +161,9 @@ Example C14_nonvacuous :
 Proof. vm_compute. split; reflexivity. Qed.
 
 Print Assumptions C14_final_tree.
+Print Assumptions C14_placement.
+Print Assumptions C14_well_formed.
+Print Assumptions C14_shipped_placement.
 Print Assumptions C14_no_empty_any_chain.
 Print Assumptions C14_shipped_pairs.
 Print Assumptions C14_fragments_join_partial.
